@@ -30,6 +30,10 @@ STMT = [
     ("unused let of a print", "unused-let", ["let u = p(41)"]),
     ("unused let of a literal", "unused-let", ["let u = 7"]),
     ("unused typed let", "unused-let", ["let u: Int = add(1, 2)"]),
+    ("unused let shadowed by a used let", "unused-let/shadowed", ["let sh = add(1, 2)", "let sh = 58", "p(sh)"]),
+    ("unused let shadowed in a nested block", "unused-let/shadowed", ["let sh = add(1, 2)", "if bt { let sh = 59 p(sh) }"]),
+    ("unused let of a literal shadowed by a used let", "unused-let/shadowed", ["let sh = 7", "let sh = 60", "p(sh)"]),
+    ("unused let shadowing a used let", "unused-let/shadowed", ["let sh = 61", "p(sh)", "let sh = add(1, 2)", "p(62)"]),
     ("unused for variable", "unused-variable", ["for i in [1, 2] { p(42) }"]),
     ("unused closure parameter", "unused-variable", ["let f = fun(x: Int) { 43 }", "p(f(2))"]),
     ("unused match payload", "unused-variable", ["match Some(1) { Some(x) => { p(44) } None => { p(45) } }"]),
@@ -74,6 +78,11 @@ ITEM = [
     ("unnecessary return in function", "unnecessary-return", "fun g3(): Int {\n  return 66\n}", "p(g3())"),
     ("unnecessary let in function", "unnecessary-let", "fun g4(): Int {\n  let r = add(1, 2)\n  r\n}", "p(g4())"),
     ("unnecessary let in method", "unnecessary-let", "method g5(this: Int): Int {\n  let r = add(this, 2)\n  r\n}", "p(1.g5())"),
+    # an import that is used, but only by code that comes before it in the file: nothing here needs fixing
+    ("import after its first use", "unused-import/after-use",
+     "fun wd(): Bool {\n  myfs::working_directory().p != \"\"\n}\nimport \"__fs.gdn\" as myfs", "p(wd())"),
+    ("import between two uses", "unused-import/after-use",
+     "fun wd(): Bool {\n  myfs::working_directory().p != \"\"\n}\nimport \"__fs.gdn\" as myfs\nfun wd2(): Bool {\n  myfs::working_directory().p == \"\"\n}", "p((wd(), wd2()))"),
 ]
 
 
@@ -160,7 +169,7 @@ def rename_vars(stmts, suffix):
     """Second copy of a trigger with its own variable names (so that the pair does not interact through names)."""
     out = []
     for s in stmts:
-        s = re.sub(r"\b(u|f|g|r|v|da|db|g1|g2|g3|g4|g5)\b", lambda m: m.group(1) + suffix, s)
+        s = re.sub(r"\b(u|f|g|r|v|da|db|sh|wd|wd2|g1|g2|g3|g4|g5)\b", lambda m: m.group(1) + suffix, s)
         out.append(s)
     return out
 
@@ -172,7 +181,7 @@ def pair_programs(ts, quick):
         for b in ts:
             A = as_stmts(a)
             B = rename_vars(as_stmts(b), "2")
-            items = "\n".join(x for x in (a.get("item"), re.sub(r"\b(g1|g2|g3|g4|g5)\b", lambda m: m.group(1) + "2", b["item"]) if b.get("item") else None) if x)
+            items = "\n".join(x for x in (a.get("item"), re.sub(r"\b(g1|g2|g3|g4|g5|wd|wd2|myfs)\b", lambda m: m.group(1) + "2", b["item"]) if b.get("item") else None) if x)
             if a.get("item") and b.get("item") and a["item"].startswith("import") and b["item"].startswith("import"):
                 items = a["item"] + "\n" + b["item"].replace("myfs", "myfs2")
             onea, oneb = " ".join(A), " ".join(B)
@@ -348,8 +357,8 @@ def run(ctx):
         else:
             d["cli_stdout"] = out[-2000:]
             raise Machinery(f"adapter drift: `garden check --fix --stdout` differs from the fix op for {sig}")
-    # a literal with effectful elements may be left without an autofix (the safe answer): it is not required to fire
-    optional = {t["name"] for t in ts if "/effectful-element" in t["lint"]}
+    # a literal with effectful elements may be left without an autofix, and a used import needs none: these are not required to fire
+    optional = {t["name"] for t in ts if "/effectful-element" in t["lint"] or "/after-use" in t["lint"]}
     dead = sorted(t for t, n in fired.items() if n == 0 and t not in optional)
     if dead and stride == 1:
         raise Machinery(f"vacuous: triggers that never produced a fix: {dead}")
